@@ -150,18 +150,18 @@ type Stats struct {
 
 // Engine holds the SSA program and the worker pool.
 type Engine struct {
-	prog      *ssa.Program
-	mainPkg   *ssa.Package
-	sizes     types.Sizes
-	Workers   int
-	SolverCmd string
-	TimeoutMs int
-	Z3All     bool    // send every single-variable decision to z3 as well
-	Recheck   float64 // fraction of domain decisions re-checked by z3
-	Seed      int64
-	FinalZ3   bool // confirm every path condition with the solver at the end of the path
+	prog        *ssa.Program
+	mainPkg     *ssa.Package
+	sizes       types.Sizes
+	Workers     int
+	SolverCmd   string
+	TimeoutMs   int
+	Z3All       bool    // send every single-variable decision to z3 as well
+	Recheck     float64 // fraction of domain decisions re-checked by z3
+	Seed        int64
+	FinalZ3     bool // confirm every path condition with the solver at the end of the path
 	NoLookahead bool // disable switch reconstruction (fork at every compare)
-	QueryLog  *lockedWriter
+	QueryLog    *lockedWriter
 
 	mu      sync.Mutex
 	interps []*interpreter
